@@ -159,3 +159,10 @@ mod tests {
         ));
     }
 }
+
+#[cfg(noodles_verif)]
+#[doc(hidden)]
+pub mod verif_hooks {
+    //! Re-exports for verification harnesses (`--cfg noodles_verif`).
+    pub use super::{cigar::__verif_decode_op, position::__verif_read_position};
+}
